@@ -355,10 +355,36 @@ example : acceptAll (fun ctx => msgKey ctx.q) [] [.store 0 ⟨qAAAA, []⟩ 1, .s
     .hit 0 ⟨qAAAA, []⟩ 1] ≠ none := by decide
 example : firstRejected (fun ctx => msgKey ctx.q) [] [.store 1 ⟨qA, []⟩ 2, .hit 1 ⟨qAAAA, []⟩ 2] 0 = some 1 := by decide
 
+/-- **Which responses a cache plugin stores.** The source says that `Cache.Exec`
+reads the response of the context directly in front of `next.ExecNext` and stores,
+afterwards, only a response that is not that one. So a `store` event stands for an
+answer the rest of the sequence produced for the question this cache was handed:
+a response that was in the context already (the hit of a cache in front of a
+question-rewriting plugin, travelling on because no `[has_resp] accept` follows)
+is never stored under this cache's key. -/
+theorem exec_stores_only_produced :
+    ∃ f, execStores Gen.Facts.c04ExecStoresOnlyNewResponse = some f ∧
+      ∀ (before after : Option Nat) (v : Nat), f before after = some v → after = some v ∧ before ≠ some v := by
+  refine ⟨_, by unfold execStores; exact if_pos (by decide), ?_⟩
+  intro before after v h
+  by_cases hab : after = before
+  · simp [hab] at h
+  · simp [hab] at h
+    subst h
+    exact ⟨rfl, fun hb => hab hb.symm⟩
+
+/-- Why comparing with the own hit only is not enough: a cache that misses while a
+response is already in the context stores that response. -/
+theorem own_hit_only_stores_travelling_response :
+    ∃ (ownHit before after : Option Nat) (v : Nat),
+      execStoresUnlessOwnHit ownHit before after = some v ∧ before = some v :=
+  ⟨none, some 1, some 1, 1, by decide, rfl⟩
+
 /-! The dump / load_dump path re-stores entries: it keeps the invariant of `inv_run`
 (every stored entry sits under the key of the query it was produced for) exactly
 when an entry is written with, and loaded under, its own key - read from the source. -/
 theorem facts_guard : Gen.Facts.c04DumpWritesKey = some true ∧ Gen.Facts.c04DumpLoadKeepsKey = some true ∧
-    Gen.Facts.c04ExecKeyOfCurrentQuery = some true ∧ Gen.Facts.c04ExecSingleKey = some true := by decide
+    Gen.Facts.c04ExecKeyOfCurrentQuery = some true ∧ Gen.Facts.c04ExecSingleKey = some true ∧
+    Gen.Facts.c04ExecStoresOnlyNewResponse = some true := by decide
 
 end Props.C04
